@@ -68,6 +68,7 @@ type Desc struct {
 }
 
 var MethodsOf = map[string][]string{
+	"hbox": {"append"},
 	"list": {"append", "clear", "extend", "index", "insert", "pop", "remove"},
 	"dict": {"clear", "get", "items", "keys", "pop", "popitem", "setdefault", "update", "values"},
 	"set":  {"add", "clear", "discard", "pop", "remove", "update", "union", "difference"},
@@ -79,7 +80,7 @@ func (d *Desc) hashable(v Val) bool {
 	}
 	n := d.Nodes[v[1]]
 	switch n.Kind {
-	case "list", "dict", "set":
+	case "list", "dict", "set", "hbox":
 		return false
 	case "ssum", "tslice", "tcat":
 		return false // structurally equal to other values: never used as a key
@@ -218,7 +219,14 @@ func (d *Desc) motif(r *hx.Rand) int {
 			frozenStruct = nd.ID
 		}
 	}
-	switch r.Intn(18) {
+	switch r.Intn(20) {
+	case 18, 19: // a bound method of a HOST-DEFINED mutable value, itself reachable only through the method
+		hb := d.add(&Node{Kind: "hbox", Init: []Val{Ref(L)}})
+		b := d.add(&Node{Kind: "bound", Recv: hb, Method: "append"})
+		if r.Bool() {
+			return b
+		}
+		return d.add(&Node{Kind: "dict", Init: []Val{Atom(1), Ref(b)}})
 	case 16: // a tuple with spare capacity: a prefix slice of a longer one
 		base := d.add(&Node{Kind: "tuple", Init: []Val{tag(), Ref(L), Atom(7), Atom(8)}})
 		return d.add(&Node{Kind: "tslice", Recv: base, K: 2})
@@ -302,6 +310,10 @@ func Corner() *Desc {
 	d.add(&Node{Kind: "func", Defaults: []Val{Ref(3)}, Captures: []int{4}, Sig: []string{"*", "req1", "d0"}, KwReq: []string{"req1"}})
 	d.add(&Node{Kind: "bound", Recv: 0, Method: "setdefault"})
 	d.add(&Node{Kind: "bound", Recv: 1, Method: "add"})
+	// a bound method of a host-defined mutable value that nothing else refers to
+	hl := d.add(&Node{Kind: "list", Init: []Val{Atom(3)}})
+	hb := d.add(&Node{Kind: "hbox", Init: []Val{Atom(4), Ref(hl)}})
+	d.add(&Node{Kind: "bound", Recv: hb, Method: "append"})
 	// functions whose defaults sit after / before required keyword-only parameters
 	la := d.add(&Node{Kind: "list", Init: []Val{Atom(2)}})
 	lb := d.add(&Node{Kind: "dict", Init: []Val{Atom(1), Atom(1)}})
@@ -322,7 +334,7 @@ func Corner() *Desc {
 	s2 := d.add(&Node{Kind: "struct", Init: []Val{Atom(1016), Ref(l2)}})
 	d.add(&Node{Kind: "ssum", A: h, B: s2})
 	for i := range d.Nodes {
-		if i == l1 || i == s1 || i == l2 || i == s2 || i == la || i == lb || i == lc {
+		if i == l1 || i == s1 || i == l2 || i == s2 || i == la || i == lb || i == lc || i == hl || i == hb {
 			continue // reachable from the globals only through the sums
 		}
 		d.Globals = append(d.Globals, i)
@@ -352,7 +364,7 @@ func GenWith(r *hx.Rand, shared bool) *Desc {
 		nd := &Node{ID: id, Exists: true}
 		host := id < nhost
 		nd.Host = host
-		kinds := []string{"list", "list", "dict", "dict", "set", "tuple", "tuple", "tslice", "tcat", "struct", "ssum", "ssum", "func", "func", "bound"}
+		kinds := []string{"list", "list", "dict", "dict", "set", "tuple", "tuple", "tslice", "tcat", "hbox", "struct", "ssum", "ssum", "func", "func", "bound"}
 		if host {
 			kinds = []string{"list", "dict", "set", "struct"}
 		}
@@ -453,7 +465,7 @@ func GenWith(r *hx.Rand, shared bool) *Desc {
 			}
 		}
 		switch nd.Kind {
-		case "list":
+		case "list", "hbox":
 			for i := 0; i < k; i++ {
 				nd.Init = append(nd.Init, anyVal(id))
 			}
@@ -568,7 +580,7 @@ func GenWith(r *hx.Rand, shared bool) *Desc {
 				v = anyVal(id + 1)
 			}
 			switch tn.Kind {
-			case "list":
+			case "list", "hbox":
 				tn.add("list", v, v)
 				d.Stmts = append(d.Stmts, Stmt{New: -1, Link: &Link{Node: tgt, V: v}})
 			case "dict":
@@ -693,6 +705,8 @@ func (d *Desc) Source() string {
 				fmt.Fprintf(&b, "    n%d = reg(%d, [%s])\n", id, id, d.exprs(nd.Init))
 			case "tuple":
 				fmt.Fprintf(&b, "    n%d = reg(%d, (%s,))\n", id, id, d.exprs(nd.Init))
+			case "hbox":
+				fmt.Fprintf(&b, "    n%d = reg(%d, box(%s))\n", id, id, d.exprs(nd.Init))
 			case "tslice":
 				fmt.Fprintf(&b, "    n%d = reg(%d, %s[:%d])\n", id, id, d.expr(Ref(nd.Recv)), nd.K)
 			case "tcat":
@@ -744,7 +758,7 @@ func (d *Desc) Source() string {
 		} else {
 			l := s.Link
 			switch d.Nodes[l.Node].Kind {
-			case "list":
+			case "list", "hbox":
 				fmt.Fprintf(&b, "    %s.append(%s)\n", d.expr(Ref(l.Node)), d.expr(l.V))
 			case "dict":
 				fmt.Fprintf(&b, "    %s[%s] = %s\n", d.expr(Ref(l.Node)), d.expr(l.K), d.expr(l.V))
@@ -831,6 +845,9 @@ func InstantiateWith(d *Desc, src string, onReg func(id int, v starlark.Value)) 
 			}
 			return in.Objs[id], nil
 		}),
+		"box": starlark.NewBuiltin("box", func(_ *starlark.Thread, _ *starlark.Builtin, args starlark.Tuple, _ []starlark.Tuple) (starlark.Value, error) {
+			return &Box{elems: append([]starlark.Value{}, args...)}, nil
+		}),
 		"boom": starlark.NewBuiltin("boom", func(_ *starlark.Thread, _ *starlark.Builtin, _ starlark.Tuple, _ []starlark.Tuple) (starlark.Value, error) {
 			return nil, fmt.Errorf("planted failure")
 		}),
@@ -895,7 +912,7 @@ func SameObj(a, b starlark.Value) bool {
 		return ok1 && ok2 && len(ta) > 0 && len(ta) == len(tb) && &ta[0] == &tb[0]
 	}
 	switch a.(type) {
-	case *starlark.List, *starlark.Dict, *starlark.Set, *starlark.Function, *starlark.Builtin, *starlarkstruct.Struct:
+	case *starlark.List, *starlark.Dict, *starlark.Set, *starlark.Function, *starlark.Builtin, *starlarkstruct.Struct, *Box:
 		return a == b
 	}
 	return false
@@ -925,6 +942,8 @@ func (in *Instance) IDOf(v starlark.Value) (Val, bool) {
 func ChildrenOf(v starlark.Value) []starlark.Value {
 	var out []starlark.Value
 	switch v := v.(type) {
+	case *Box:
+		out = append(out, v.Elems()...)
 	case *starlark.List:
 		for i := 0; i < v.Len(); i++ {
 			out = append(out, v.Index(i))
@@ -997,7 +1016,7 @@ func (in *Instance) Walk() []int {
 			}
 		}
 		switch v.(type) {
-		case *starlark.List, *starlark.Dict, *starlark.Set, *starlark.Function, *starlark.Builtin, *starlarkstruct.Struct, starlark.Tuple:
+		case *starlark.List, *starlark.Dict, *starlark.Set, *starlark.Function, *starlark.Builtin, *starlarkstruct.Struct, starlark.Tuple, *Box:
 		default:
 			continue
 		}
